@@ -840,8 +840,15 @@ func (w *CliWorld) EnvActions() []Action {
 			acts = append(acts, Action{Name: "close conn", Env: true, Weight: 2, Run: func() { w.closeConn() }})
 		}
 		for i, f := range w.plan.Faults {
-			if w.faultsDone[i] || (f.AfterOps >= 0 && w.opsSent < f.AfterOps) {
+			if w.faultsDone[i] {
 				continue
+			}
+			if f.AfterOps >= 0 && w.opsSent < f.AfterOps {
+				// a stalled link is also released once the scripted server has nothing left that it may send:
+				// the credit it waits for can only be behind the stall
+				if !(f.Kind == "unstall-c2s" && w.stallC2S && !w.anyLaneEnabled()) {
+					continue
+				}
 			}
 			i, f := i, f
 			acts = append(acts, Action{Name: "fault " + f.Kind + "@" + itoa(f.At), Run: func() { w.faultsDone[i] = true; w.applyFault(f) }, Env: true, Weight: 8})
@@ -853,6 +860,15 @@ func (w *CliWorld) EnvActions() []Action {
 		}
 	}
 	return acts
+}
+
+func (w *CliWorld) anyLaneEnabled() bool {
+	for _, l := range w.lanes {
+		if w.laneEnabled(l) {
+			return true
+		}
+	}
+	return false
 }
 
 func (w *CliWorld) closeConn() {
